@@ -249,6 +249,17 @@ def _module(draw, ctx):
             gi += 2
             defined += [out, base, base + "_0"]
             avail += [out, base, base + "_0"]
+    if len(avail) >= 3 and len(fresh) >= 3 and draw(st.integers(0, 5)) == 0:
+        # the same net inverted on its own in one assign and used as the select of a ?: in another, in either order
+        # (both need an inverter of that net)
+        s_, a_, b_ = draw(st.permutations(avail))[:3]
+        inv = {"k": "assign", "assigns": [{"lhs": fresh.pop(), "rhs": ["not", draw(st.sampled_from(["~", "!"])), ["id", s_]]}]}
+        mux = {"k": "assign", "assigns": [{"lhs": fresh.pop(), "rhs": ["tern", ["id", s_], ["id", a_], ["id", b_]]}]}
+        pair = [inv, mux] if draw(st.booleans()) else [mux, inv]
+        stmts += pair
+        for st_ in pair:
+            defined.append(st_["assigns"][0]["lhs"])
+            avail.append(st_["assigns"][0]["lhs"])
     if twins:
         # two expressions of the same shape whose operand names join to the same string
         for l1, l2 in twin_pairs:
@@ -320,7 +331,8 @@ def _module(draw, ctx):
     ports = list(draw(st.permutations(inputs + outputs)))
     if draw(st.integers(0, 2)) == 0:
         texts = [" plain comment ", "assign x = y; and g(a,b)", " input zz ", "***", " wire ", " 1'b0 ~^ ",
-                 "*", "**", "* banner **", " text **", "** x *", "*** box ***", " a * b ", " / ", "/", "* /"]
+                 "*", "**", "* banner **", " text **", "** x *", "*** box ***", " a * b ", " / ", "/", "* /",
+                 "", "", " ", "\t", "//", "/"]  # empty comments (a bare // separator line) too
         for _ in range(draw(st.integers(1, 3))):
             cm = {"k": "comment", "text": draw(st.sampled_from(texts)), "style": draw(st.sampled_from(["line", "block"]))}
             pos = draw(st.integers(0, len(items)))
